@@ -141,9 +141,11 @@ impl<'a> TypstTranslator<'a> {
 
         macro_rules! get_text {
             ($expr:expr) => {
+                // A synthesized node (e.g. the callee of `_()`) has no range and so no text.
                 self.doc
-                    .get(self.doc.range($expr.span()).unwrap())
-                    .expect("Unable to get text from typst document span!")
+                    .range($expr.span())
+                    .and_then(|range| self.doc.get(range))
+                    .unwrap_or_default()
             };
         }
 
